@@ -20,8 +20,10 @@ def src_text(s):
     if s.get("hdr"):
         L.append('#include "h.h"')
     n = s["name"]
+    if s.get("sc"):
+        L += [ind + "int %s_s(int y) { return y + 1; }" % n]
     L += [ind + "int %s(int x)" % n, ind + "{", ind + "  int a[2];", ind + "  a[%d] = x;%s" % (s["idx"], " /* c */" if s.get("comment_in") else ""),
-          ind + "  return %s100 / %s;" % ("hf(x) + " if s.get("hdr") else "", s["div"]), ind + "}"]
+          ind + "  return %s%s100 / %s;" % ("hf(x) + " if s.get("hdr") else "", ("%s_s(x) + " % n) if s.get("sc") else "", s["div"]), ind + "}"]
     if s.get("extra"):
         L += [ind + "int %s_e(int *p)" % n, ind + "{", ind + "  int u;", ind + "  return u + *p;", ind + "}"]
     if s.get("odr"):
